@@ -6,11 +6,12 @@ import solvercorr as sc
 import solverslices
 from props.c04 import TRUSTED
 
-THEOREMS = ["C03_flux_sum", "C03_source_mean", "C03_conc_sum", "C03_footprint_mass", "C03_halo_is_padding", "C03_padded_request_geometry"]
+THEOREMS_R = ["C03_resistance_is_integral", "C03_resistance_exact_piecewise_linear", "C03_resistance_converges", "C03_resistance_neutral_example"]
+THEOREMS = ["C03_flux_sum", "C03_source_mean", "C03_conc_sum", "C03_footprint_mass", "C03_halo_is_padding", "C03_padded_request_geometry"] + THEOREMS_R
 ASSUMPTIONS = [
     "theorems are for double-precision storage and the full periodic domain (halo observed through explicit padding with halo=0)",
     "halo == padding is a theorem for footprint mode (any measurement point) and dispersion mode with the measurement point at the origin (re-centring depends on the domain extent)",
-    "'integral of dz/Kz' is the trapezoidal sum the code accumulates (numerical) or h/Kz (analytic); convergence of the trapezoid to the integral is not part of the theorem",
+    "'integral of dz/Kz': C03_conc_sum is about the trapezoidal sum the code accumulates (numerical) or h/Kz (analytic); C03_resistance_is_integral bounds its distance to the Riemann integral of 1/Kz by |q00| M2/12 (z_m - z_0) dmax^2 for twice differentiable 1/Kz (M2 a bound of the second derivative), C03_resistance_exact_piecewise_linear shows equality for piecewise-linear 1/Kz, C03_resistance_converges convergence on uniform refinements (over Coquelicot's reals: stdlib real axioms)",
 ]
 
 
@@ -26,7 +27,7 @@ def gen(ctx):
 
 
 def check(ctx):
-    core.check_properties_file(ctx, "Properties/C03.v", THEOREMS, core.AX_NONE)
+    core.check_properties_file(ctx, "Properties/C03.v", THEOREMS, {n: core.AX_REALS for n in THEOREMS_R})
     solverslices.run(ctx)
     cases = gen(ctx)
     recs = sc.correspond(ctx, cases, "c03_")
